@@ -280,7 +280,7 @@ impl Shared {
         // underflow.
         let head = load_kernel_shared(self.submissions_head);
         let tail = load_kernel_shared(self.submissions_tail);
-        tail.saturating_sub(head)
+        tail.wrapping_sub(head)
     }
 
     fn ring_fd(&self) -> RawFd {
